@@ -198,6 +198,15 @@ impl<T> Queue<T> {
     }
 }
 
+#[cfg(feature = "circ_verif")]
+impl<T> Queue<T> {
+    pub(crate) fn verif_is_empty(&self, guard: &Guard) -> bool {
+        let head = self.head.load(Acquire, guard);
+        let h = unsafe { head.deref() };
+        unsafe { h.next.load(Acquire, guard).as_ref().is_none() }
+    }
+}
+
 impl<T> Drop for Queue<T> {
     fn drop(&mut self) {
         unsafe {
